@@ -284,6 +284,11 @@ const FRAGS: &[Frag] = &[
     f("active-data-ops", "(type $ada# (array (mut i8)))", "",
       "(data $ad# (i32.const 32) \"active\")
        (func $ad#f (result (ref $ada#)) (memory.init $ad# (i32.const 0) (i32.const 0) (i32.const 0)) (data.drop $ad#) (array.new_data $ada# $ad# (i32.const 0) (i32.const 0)))"),
+    f("typed-element-segments", "(type $te#t (func))", "",
+      "(table $te#n 2 (ref null $te#t)) (func $te#f (type $te#t)) (func $te#g (type $te#t))
+       (elem $te#a (table $te#n) (i32.const 0) (ref null $te#t) (ref.func $te#f) (ref.func $te#g))
+       (elem $te#p (ref $te#t) (ref.func $te#g))
+       (func $te#i (table.init $te#n $te#p (i32.const 0) (i32.const 0) (i32.const 1)))"),
     f("element-expressions", "(type $xe#t (func))", "",
       "(table $xt# 6 funcref) (table $xx# 2 externref) (func $xf#a (type $xe#t)) (func $xf#b (type $xe#t))
        (elem $x#a (table $xt#) (i32.const 0) funcref (ref.func $xf#a) (ref.null func))
